@@ -114,7 +114,7 @@ def parse_file(path):
             cur.rewrites.append((m.group(3), m.group(4) or '', bool(m.group(2))))
             i += 1
             continue
-        m = re.match(r'^at ((?:each )?(?:before|after)) `(.*)`:\s*$', ln) or re.match(r'^at ()(body\.start|body\.end|loop \d+\.(?:start|end|after)):\s*$', ln)
+        m = re.match(r'^at ((?:each )?(?:before|after)) `(.*)`:\s*$', ln) or re.match(r'^at ()(body\.start|body\.end|body\.tail|loop \d+\.(?:start|end|after)):\s*$', ln)
         if m:
             i += 1
             blk, i = block(i)
